@@ -322,64 +322,67 @@ Proof.
 Qed.
 
 (* ------------------------------------------------------------------------------------------------ *)
-(* FileCache._store_single_color_tile                                                               *)
+(* FileCache._store_single_color_tile (repaired: link under a temp name, rename over the tile)      *)
 
-Lemma not_lexists : forall s p, exists_ s p || is_link s p = false -> s p = None.
+Lemma link_tail : forall s1 p sc hard sfx2 c s',
+  s1 sc = Some (NFile c) -> p <> sc -> sc <> tmp_of p sfx2 ->
+  (forall x, s1 p = Some (NLink x) -> x <> tmp_of p sfx2) ->
+  In s' (crash_states s1 (if lexists s1 (tmp_of p sfx2) then [OUnlink (tmp_of p sfx2)]
+                          else [link_op hard sc (tmp_of p sfx2); ORename (tmp_of p sfx2) p])) ->
+  read_path s' p = read_path s1 p \/ read_path s' p = RData c.
 Proof.
-  intros s p H. apply orb_false_iff in H. destruct H as [H1 H2].
-  unfold exists_, resolve, is_link in *. destruct (s p) as [[c|t]|]; try discriminate; reflexivity.
+  intros s1 p sc hard sfx2 c s' Hsc Hne Hst Hl H.
+  set (t := tmp_of p sfx2) in *.
+  assert (Hpt : p <> t) by (intros C; symmetry in C; revert C; apply tmp_neq).
+  assert (Fr : forall v, read_path (upd s1 t v) p = read_path s1 p).
+  { intros v. unfold read_path. rewrite (resolve_frame s1 (upd s1 t v) p [t]); auto.
+    - intros x Hx. apply upd_other. intros C. apply Hx. left. symmetry. exact C.
+    - intros [C|[]]. apply Hpt. symmetry. exact C.
+    - intros x Hx [C|[]]. apply (Hl x Hx). symmetry. exact C. }
+  destruct (lexists s1 t) eqn:E.
+  - cbn [crash_states tears map app] in H. destruct H as [<-|[<-|[]]].
+    + left. reflexivity.
+    + left. cbn [apply_op]. apply Fr.
+  - apply lexists_none in E.
+    assert (T0 : tears (link_op hard sc t) = []) by (unfold link_op; destruct hard; reflexivity).
+    cbn [crash_states] in H. rewrite T0 in H. cbn [tears map app] in H.
+    assert (Hlk : exists n, apply_op s1 (link_op hard sc t) = upd s1 t (Some n) /\
+                            (n = NFile c \/ n = NLink sc)).
+    { unfold link_op. destruct hard; cbn [apply_op]; rewrite ?Hsc, ?E.
+      - exists (NFile c). auto.
+      - exists (NLink sc). auto. }
+    destruct Hlk as [n [En Hn]].
+    destruct H as [<-|[<-|[<-|[]]]].
+    + left. reflexivity.
+    + left. rewrite En. apply Fr.
+    + right. rewrite En. cbn [apply_op]. rewrite upd_same.
+      unfold read_path, resolve. rewrite upd_same.
+      destruct Hn as [-> | ->]; [reflexivity|].
+      rewrite upd_other by (intros C; apply Hne; symmetry; exact C).
+      rewrite upd_other by (intros C; apply Hst; exact C).
+      rewrite upd_other by (intros C; apply Hst; exact C).
+      rewrite Hsc. reflexivity.
 Qed.
 
-Definition link_op (hard : bool) (sc p : path) : fsop := if hard then OLink sc p else OSymlink sc p.
-
-Lemma link_tail : forall s1 p sc hard c s',
-  s1 sc = Some (NFile c) -> p <> sc ->
-  In s' (crash_states s1 ((if exists_ s1 p || is_link s1 p then [OUnlink p] else []) ++ [link_op hard sc p])) ->
-  read_path s' p = read_path s1 p \/ read_path s' p = RData c \/ read_path s' p = RMissing.
-Proof.
-  intros s1 p sc hard c s' Hsc Hne H.
-  assert (Fin : forall s2, s2 p = None -> s2 sc = Some (NFile c) ->
-                           read_path (apply_op s2 (link_op hard sc p)) p = RData c).
-  { intros s2 Hp Hc. unfold link_op. destruct hard; cbn [apply_op]; rewrite ?Hp, ?Hc.
-    - apply read_path_file. apply upd_same.
-    - unfold read_path, resolve. rewrite upd_same. rewrite upd_other by (intros C; apply Hne; symmetry; exact C).
-      rewrite Hc. reflexivity. }
-  assert (Tl : forall s2 x, s2 p = None -> s2 sc = Some (NFile c) ->
-                            In x (crash_states s2 [link_op hard sc p]) ->
-                            read_path x p = RMissing \/ read_path x p = RData c).
-  { intros s2 x Hp Hc Hx. cbn [crash_states] in Hx. destruct Hx as [<-|Hx].
-    - left. apply read_path_none. exact Hp.
-    - assert (T0 : tears (link_op hard sc p) = []) by (unfold link_op; destruct hard; reflexivity).
-      rewrite T0 in Hx. cbn [map app] in Hx. destruct Hx as [<-|[]]. right. apply Fin; assumption. }
-  destruct (exists_ s1 p || is_link s1 p) eqn:E.
-  - apply crash_states_app in H. destruct H as [H|H].
-    + cbn [crash_states tears map app] in H. destruct H as [<-|[<-|[]]].
-      * left. reflexivity.
-      * right. right. apply read_path_none. cbn [apply_op]. apply upd_same.
-    + cbn [apply_ops fold_left apply_op] in H.
-      destruct (Tl (upd s1 p None) s') as [T|T]; auto.
-      * apply upd_same.
-      * rewrite upd_other by (intros C; apply Hne; symmetry; exact C). exact Hsc.
-  - cbn [app] in H. apply not_lexists in E.
-    destruct (Tl s1 s') as [T|T]; auto.
-Qed.
-
-Lemma store_single_target : forall s p sc hard sfx d s',
-  In s' (crash_states s (store_single_ops s p sc hard sfx d)) ->
-  p <> sc -> p <> tmp_of sc sfx -> is_link s sc = false ->
+Lemma store_single_target : forall s p sc hard same sfx sfx2 d s',
+  In s' (crash_states s (store_single_ops s p sc hard same sfx sfx2 d)) ->
+  p <> sc -> p <> tmp_of sc sfx -> sc <> tmp_of p sfx2 -> is_link s sc = false ->
+  (forall x, s p = Some (NLink x) -> x <> tmp_of p sfx2) ->
   (forall x, s p = Some (NLink x) -> exists_ s sc = false -> x <> sc /\ x <> tmp_of sc sfx) ->
   read_path s' p = read_path s p \/
-  read_path s' p = RData (match resolve s sc with Some c => c | None => d end) \/
-  read_path s' p = RMissing.
+  read_path s' p = RData (match resolve s sc with Some c => c | None => d end).
 Proof.
-  intros s p sc hard sfx d s' H Hne Hnt Hl Hx. unfold store_single_ops in H.
-  fold (link_op hard sc p) in H.
+  intros s p sc hard same sfx sfx2 d s' H Hne Hnt Hst Hl Hlt Hx. unfold store_single_ops in H.
   destruct (exists_ s sc) eqn:E.
   - cbn [fst snd apply_ops fold_left app] in H.
     unfold exists_ in E. destruct (resolve s sc) as [c|] eqn:R; [|discriminate].
     assert (Hc : s sc = Some (NFile c)).
     { unfold resolve, is_link in *. destruct (s sc) as [[c0|t]|]; try discriminate. inversion R; reflexivity. }
-    eapply link_tail; eauto.
+    destruct same.
+    + cbn [crash_states] in H. destruct H as [<-|[]]. left. reflexivity.
+    + destruct (lexists s (tmp_of p sfx2)) eqn:EL.
+      * eapply link_tail with (hard := hard); eauto. rewrite EL. exact H.
+      * eapply link_tail with (hard := hard); eauto. rewrite EL. exact H.
   - assert (R : resolve s sc = None) by (unfold exists_ in E; destruct (resolve s sc); [discriminate|reflexivity]).
     rewrite R.
     assert (Fr : forall x, In x (crash_states s (fst (store_plain_ops s sc sfx d))) ->
@@ -390,37 +393,54 @@ Proof.
         + intros y Hy C. apply store_plain_touched in C. destruct (Hx y Hy eq_refl). destruct C; contradiction.
       - eapply crash_states_frame; eauto.
         intros C. apply store_plain_touched in C. destruct C; contradiction. }
-    destruct (snd (store_plain_ops s sc sfx d)) eqn:OK.
-    + apply crash_states_app in H. destruct H as [H|H].
-      * left. apply Fr. exact H.
-      * set (s1 := apply_ops s (fst (store_plain_ops s sc sfx d))) in *.
-        assert (H1 : read_path s1 p = read_path s p /\ s1 p = s p) by (apply Fr; apply crash_states_last).
-        assert (Hc : s1 sc = Some (NFile d)) by (apply store_plain_completes; exact OK).
-        destruct (link_tail s1 p sc hard d s' Hc Hne H) as [T|[T|T]].
-        -- left. rewrite T. apply H1.
-        -- right. left. exact T.
-        -- right. right. exact T.
-    + left. apply Fr. exact H.
+    destruct (snd (store_plain_ops s sc sfx d)) eqn:OK; [|left; apply Fr; exact H].
+    destruct same; [left; apply Fr; exact H|].
+    set (s1 := apply_ops s (fst (store_plain_ops s sc sfx d))) in *.
+    assert (H1 : read_path s1 p = read_path s p /\ s1 p = s p) by (apply Fr; apply crash_states_last).
+    assert (Hc : s1 sc = Some (NFile d)) by (apply store_plain_completes; exact OK).
+    assert (Tail : forall l, In s' (crash_states s (fst (store_plain_ops s sc sfx d) ++ l)) ->
+              l = (if lexists s1 (tmp_of p sfx2) then [OUnlink (tmp_of p sfx2)]
+                   else [link_op hard sc (tmp_of p sfx2); ORename (tmp_of p sfx2) p]) ->
+              read_path s' p = read_path s p \/ read_path s' p = RData d).
+    { intros l Hin El. apply crash_states_app in Hin. destruct Hin as [Hin|Hin].
+      - left. apply Fr. exact Hin.
+      - fold s1 in Hin. rewrite El in Hin.
+        destruct (link_tail s1 p sc hard sfx2 d s' Hc Hne Hst) as [T|T]; auto.
+        + intros x Hxx. apply Hlt. destruct H1 as [_ H1]. rewrite <- H1. exact Hxx.
+        + left. rewrite T. apply H1. }
+    destruct (lexists s1 (tmp_of p sfx2)) eqn:EL; eapply Tail; eauto; rewrite EL; reflexivity.
 Qed.
 
-Lemma store_single_touched : forall s p sc hard sfx d q,
-  In q (touched (store_single_ops s p sc hard sfx d)) -> q = p \/ q = sc \/ q = tmp_of sc sfx.
+Lemma store_single_touched : forall s p sc hard same sfx sfx2 d q,
+  In q (touched (store_single_ops s p sc hard same sfx sfx2 d)) ->
+  q = p \/ q = tmp_of p sfx2 \/ q = sc \/ q = tmp_of sc sfx.
 Proof.
-  intros s p sc hard sfx d q H. unfold store_single_ops in H. fold (link_op hard sc p) in H.
+  intros s p sc hard same sfx sfx2 d q H. unfold store_single_ops in H.
   assert (A : forall l, In q (touched l) ->
-              l = [] \/ l = fst (store_plain_ops s sc sfx d) -> q = p \/ q = sc \/ q = tmp_of sc sfx).
+              l = [] \/ l = fst (store_plain_ops s sc sfx d) -> q = p \/ q = tmp_of p sfx2 \/ q = sc \/ q = tmp_of sc sfx).
   { intros l Hq [-> | ->]; [contradiction|]. apply store_plain_touched in Hq. tauto. }
-  assert (B : forall s1, In q (touched ((if exists_ s1 p || is_link s1 p then [OUnlink p] else []) ++ [link_op hard sc p])) -> q = p).
-  { intros s1 Hq. unfold touched in Hq. rewrite flat_map_app in Hq. apply in_app_or in Hq. destruct Hq as [Hq|Hq].
-    - destruct (exists_ s1 p || is_link s1 p); cbn in Hq; [|contradiction]. destruct Hq as [<-|[]]. reflexivity.
-    - unfold link_op in Hq. destruct hard; cbn in Hq; destruct Hq as [<-|[]]; reflexivity. }
-  destruct (exists_ s sc).
-  - cbn [fst snd] in H. cbn [app] in H. left. eapply B. exact H.
-  - destruct (snd (store_plain_ops s sc sfx d)).
-    + unfold touched in H. rewrite flat_map_app in H. apply in_app_or in H. destruct H as [H|H].
-      * eapply A; eauto.
-      * left. eapply B. exact H.
-    + eapply A; eauto.
+  assert (B : forall s1, In q (touched (if lexists s1 (tmp_of p sfx2) then [OUnlink (tmp_of p sfx2)]
+                          else [link_op hard sc (tmp_of p sfx2); ORename (tmp_of p sfx2) p])) ->
+                         q = p \/ q = tmp_of p sfx2).
+  { intros s1 Hq. destruct (lexists s1 (tmp_of p sfx2)).
+    - cbn in Hq. destruct Hq as [<-|[]]. auto.
+    - unfold link_op in Hq. destruct hard; cbn in Hq; destruct Hq as [<-|[<-|[<-|[]]]]; auto. }
+  assert (C : forall l s1, In q (touched (l ++ (if lexists s1 (tmp_of p sfx2) then [OUnlink (tmp_of p sfx2)]
+                          else [link_op hard sc (tmp_of p sfx2); ORename (tmp_of p sfx2) p]))) ->
+              l = [] \/ l = fst (store_plain_ops s sc sfx d) -> q = p \/ q = tmp_of p sfx2 \/ q = sc \/ q = tmp_of sc sfx).
+  { intros l s1 Hq Hl. unfold touched in Hq. rewrite flat_map_app in Hq. apply in_app_or in Hq. destruct Hq as [Hq|Hq].
+    - eapply A; eauto.
+    - apply B in Hq. tauto. }
+  destruct (exists_ s sc); cbn [fst snd] in H.
+  - destruct same; [contradiction|].
+    destruct (lexists (apply_ops s []) (tmp_of p sfx2)) eqn:EL.
+    + eapply (C [] (apply_ops s [])); [rewrite EL; exact H|auto].
+    + eapply (C [] (apply_ops s [])); [rewrite EL; exact H|auto].
+  - destruct (snd (store_plain_ops s sc sfx d)); [|eapply A; eauto].
+    destruct same; [eapply A; eauto|].
+    destruct (lexists (apply_ops s (fst (store_plain_ops s sc sfx d))) (tmp_of p sfx2)) eqn:EL.
+    + eapply (C _ (apply_ops s (fst (store_plain_ops s sc sfx d)))); [rewrite EL; exact H|auto].
+    + eapply (C _ (apply_ops s (fst (store_plain_ops s sc sfx d)))); [rewrite EL; exact H|auto].
 Qed.
 
 (* ------------------------------------------------------------------------------------------------ *)
@@ -428,11 +448,11 @@ Qed.
 
 (* side conditions on the state before the store (see P_C06.v for their meaning) *)
 Definition req_ok (s : fs) (r : file_req) : Prop :=
-  digits_ok (rq_sfx r) = true /\
+  digits_ok (rq_sfx r) = true /\ digits_ok (rq_sfx2 r) = true /\
   is_tmp_name (rq_loc r) = false /\
   (forall x, s (rq_loc r) = Some (NLink x) -> is_tmp_name x = false) /\
   (forall sc, rq_color r = Some sc ->
-     rq_loc r <> sc /\ is_link s sc = false /\
+     rq_loc r <> sc /\ is_tmp_name sc = false /\ is_link s sc = false /\
      (forall x, s (rq_loc r) = Some (NLink x) -> exists_ s sc = false -> x <> sc)).
 
 Lemma file_store_target : forall s r s',
@@ -440,47 +460,50 @@ Lemma file_store_target : forall s r s',
   In s' (crash_states s (file_store_ops s r)) ->
   read_path s' (rq_loc r) = read_path s (rq_loc r) \/
   read_path s' (rq_loc r) = RData (new_content s r) \/
-  (read_path s' (rq_loc r) = RMissing /\ (is_link s (rq_loc r) = true \/ linked_store r = true)).
+  (read_path s' (rq_loc r) = RMissing /\ is_link s (rq_loc r) = true /\ linked_store r = false).
 Proof.
-  intros s r s' [Hd [Hp [Hl Hc]]] H.
-  assert (Plain : In s' (crash_states s (fst (store_plain_ops s (rq_loc r) (rq_sfx r) (rq_data r)))) ->
+  intros s r s' [Hd [Hd2 [Hp [Hl Hc]]]] H.
+  assert (Plain : linked_store r = false ->
+                  In s' (crash_states s (fst (store_plain_ops s (rq_loc r) (rq_sfx r) (rq_data r)))) ->
                   read_path s' (rq_loc r) = read_path s (rq_loc r) \/
                   read_path s' (rq_loc r) = RData (rq_data r) \/
-                  (read_path s' (rq_loc r) = RMissing /\ (is_link s (rq_loc r) = true \/ linked_store r = true))).
-  { intros H0. apply store_plain_target in H0.
+                  (read_path s' (rq_loc r) = RMissing /\ is_link s (rq_loc r) = true /\ linked_store r = false)).
+  { intros Ls H0. apply store_plain_target in H0.
     - destruct H0 as [T|[T|[T L]]]; auto.
     - intros x Hx. apply not_tmp_neq; auto. }
-  assert (Single : forall sc hard, rq_color r = Some sc -> linked_store r = true ->
-             In s' (crash_states s (store_single_ops s (rq_loc r) sc hard (rq_sfx r) (rq_data r))) ->
+  assert (Single : forall sc hard, rq_color r = Some sc ->
+             In s' (crash_states s (store_single_ops s (rq_loc r) sc hard (rq_same r) (rq_sfx r) (rq_sfx2 r) (rq_data r))) ->
              read_path s' (rq_loc r) = read_path s (rq_loc r) \/
              read_path s' (rq_loc r) = RData (match resolve s sc with Some c => c | None => rq_data r end) \/
-             (read_path s' (rq_loc r) = RMissing /\ (is_link s (rq_loc r) = true \/ linked_store r = true))).
-  { intros sc hard Ec Ls H0. destruct (Hc sc Ec) as [N1 [N2 N3]].
+             (read_path s' (rq_loc r) = RMissing /\ is_link s (rq_loc r) = true /\ linked_store r = false)).
+  { intros sc hard Ec H0. destruct (Hc sc Ec) as [N1 [N0 [N2 N3]]].
     apply store_single_target in H0; auto.
-    - destruct H0 as [T|[T|T]]; auto.
+    - destruct H0 as [T|T]; auto.
     - apply not_tmp_neq; auto.
+    - apply not_tmp_neq; auto.
+    - intros x Hx. apply not_tmp_neq; auto.
     - intros x Hx Ex. split; [apply N3; auto|]. apply not_tmp_neq; auto. }
   unfold file_store_ops, new_content, linked_store in *.
   destruct (rq_mode r); destruct (rq_color r) as [sc|];
-    try (apply Plain; exact H); eapply Single; eauto.
+    try (apply Plain; [reflexivity|exact H]); eapply Single; eauto.
 Qed.
 
 Lemma file_store_touched : forall s r q,
   In q (touched (file_store_ops s r)) ->
-  q = rq_loc r \/ q = tmp_of (rq_loc r) (rq_sfx r) \/
+  q = rq_loc r \/ q = tmp_of (rq_loc r) (rq_sfx r) \/ q = tmp_of (rq_loc r) (rq_sfx2 r) \/
   (exists sc, rq_color r = Some sc /\ (q = sc \/ q = tmp_of sc (rq_sfx r))).
 Proof.
   intros s r q H. unfold file_store_ops in H.
   destruct (rq_mode r); destruct (rq_color r) as [sc|];
     try (apply store_plain_touched in H; tauto);
-    apply store_single_touched in H; destruct H as [H|[H|H]]; auto; right; right; exists sc; auto.
+    apply store_single_touched in H; destruct H as [H|[H|[H|H]]]; auto; right; right; right; exists sc; auto.
 Qed.
 
-(* the other addresses: anything that is neither the target, nor the colour file, nor one of the two temp
+(* the other addresses: anything that is neither the target, nor the colour file, nor one of the temp
    names, and does not link to one of them, reads as before in every crash state *)
 Lemma file_store_others : forall s r s' q,
   In s' (crash_states s (file_store_ops s r)) ->
-  let T := [rq_loc r; tmp_of (rq_loc r) (rq_sfx r)] ++
+  let T := [rq_loc r; tmp_of (rq_loc r) (rq_sfx r); tmp_of (rq_loc r) (rq_sfx2 r)] ++
            match rq_color r with Some sc => [sc; tmp_of sc (rq_sfx r)] | None => [] end in
   ~ In q T -> (forall x, s q = Some (NLink x) -> ~ In x T) ->
   read_path s' q = read_path s q.
@@ -488,7 +511,7 @@ Proof.
   intros s r s' q H T Hq Hl.
   assert (Sub : forall x, In x (touched (file_store_ops s r)) -> In x T).
   { intros x Hx. apply file_store_touched in Hx. subst T. cbn [app].
-    destruct Hx as [->|[->|[sc [E [-> | ->]]]]]; cbn; auto; rewrite E; cbn; auto. }
+    destruct Hx as [-> | [-> | [-> | [sc [E [-> | ->]]]]]]; try rewrite E; cbn [In app]; tauto. }
   eapply crash_others_unaffected; eauto.
   intros x Hx C. apply (Hl x Hx). apply Sub. exact C.
 Qed.
@@ -497,48 +520,50 @@ Qed.
 Lemma file_store_same_colour_link_kept : forall s r s' q sc,
   In s' (crash_states s (file_store_ops s r)) ->
   rq_color r = Some sc -> exists_ s sc = true ->
-  q <> rq_loc r -> sc <> rq_loc r -> s q = Some (NLink sc) ->
+  q <> rq_loc r -> q <> tmp_of (rq_loc r) (rq_sfx2 r) ->
+  sc <> rq_loc r -> sc <> tmp_of (rq_loc r) (rq_sfx2 r) -> s q = Some (NLink sc) ->
   rq_mode r <> LNone ->
   read_path s' q = read_path s q.
 Proof.
-  intros s r s' q sc H Ec Ex Hq Hsc Hlq Hm.
-  assert (Sub : forall x, In x (touched (file_store_ops s r)) -> x = rq_loc r).
+  intros s r s' q sc H Ec Ex Hq Hqt Hsc Hsct Hlq Hm.
+  assert (Sub : forall x, In x (touched (file_store_ops s r)) -> x = rq_loc r \/ x = tmp_of (rq_loc r) (rq_sfx2 r)).
   { intros x Hx. unfold file_store_ops in Hx. rewrite Ec in Hx.
-    assert (S1 : forall hard, In x (touched (store_single_ops s (rq_loc r) sc hard (rq_sfx r) (rq_data r))) -> x = rq_loc r).
+    assert (S1 : forall hard, In x (touched (store_single_ops s (rq_loc r) sc hard (rq_same r) (rq_sfx r) (rq_sfx2 r) (rq_data r))) ->
+                              x = rq_loc r \/ x = tmp_of (rq_loc r) (rq_sfx2 r)).
     { intros hard Hh. unfold store_single_ops in Hh. rewrite Ex in Hh. cbn [fst snd app apply_ops fold_left] in Hh.
-      unfold touched in Hh. rewrite flat_map_app in Hh. apply in_app_or in Hh. destruct Hh as [Hh|Hh].
-      - destruct (exists_ s (rq_loc r) || is_link s (rq_loc r)); cbn in Hh; [|contradiction].
-        destruct Hh as [<-|[]]. reflexivity.
-      - destruct hard; cbn in Hh; destruct Hh as [<-|[]]; reflexivity. }
+      destruct (rq_same r); [contradiction|].
+      destruct (lexists s (tmp_of (rq_loc r) (rq_sfx2 r))).
+      - cbn in Hh. destruct Hh as [<-|[]]. auto.
+      - unfold link_op in Hh. destruct hard; cbn in Hh; destruct Hh as [<-|[<-|[<-|[]]]]; auto. }
     destruct (rq_mode r); [contradiction Hm; reflexivity| |]; eapply S1; eauto. }
   eapply crash_others_unaffected; [exact H| |].
-  - intros C. apply Sub in C. contradiction.
-  - intros x Hx C. rewrite Hlq in Hx. inversion Hx; subst x. apply Sub in C. contradiction.
+  - intros C. apply Sub in C. destruct C; contradiction.
+  - intros x Hx C. rewrite Hlq in Hx. inversion Hx; subst x. apply Sub in C. destruct C; contradiction.
 Qed.
 
 (* ------------------------------------------------------------------------------------------------ *)
-(* non-vacuity and the boundary of the statement                                                    *)
+(* non-vacuity                                                                                      *)
 
 Definition ex_p : path := [48; 49; 47; 48; 46; 112].           (* "01/0.p" *)
 Definition ex_q : path := [48; 49; 47; 49; 46; 112].           (* "01/1.p" *)
 Definition ex_sc : path := [115; 47; 102; 102; 46; 112].       (* "s/ff.p" *)
 Definition ex_fs : fs := fs_of [(ex_p, NFile [1; 2; 3]); (ex_q, NLink ex_sc); (ex_sc, NFile [7; 7])].
-Definition ex_req_plain : file_req := mkReq ex_q [4; 5; 6; 7] LSym None [52; 50].
-Definition ex_req_link : file_req := mkReq ex_p [7; 7] LSym (Some ex_sc) [52; 50].
+Definition ex_req_plain : file_req := mkReq ex_q [4; 5; 6; 7] LSym None [52; 50] [53] false.
+Definition ex_req_link : file_req := mkReq ex_p [7; 7] LSym (Some ex_sc) [52; 50] [53] false.
 
 Example req_ok_plain_example : req_ok ex_fs ex_req_plain.
 Proof.
-  unfold req_ok. split; [reflexivity|]. split; [reflexivity|]. split.
+  unfold req_ok. split; [reflexivity|]. split; [reflexivity|]. split; [reflexivity|]. split.
   - intros x Hx. vm_compute in Hx. inversion Hx. reflexivity.
   - intros sc Hc. discriminate Hc.
 Qed.
 
 Example req_ok_link_example : req_ok ex_fs ex_req_link.
 Proof.
-  unfold req_ok. split; [reflexivity|]. split; [reflexivity|]. split.
+  unfold req_ok. split; [reflexivity|]. split; [reflexivity|]. split; [reflexivity|]. split.
   - intros x Hx. vm_compute in Hx. discriminate Hx.
   - intros sc Hc. cbn in Hc. inversion Hc; subst sc. split; [discriminate|]. split; [reflexivity|].
-    intros x Hx. vm_compute in Hx. discriminate Hx.
+    split; [reflexivity|]. intros x Hx. vm_compute in Hx. discriminate Hx.
 Qed.
 
 (* a plain store over a link: 9 crash states; the address reads old, missing (link removed) or new *)
@@ -547,18 +572,13 @@ Example plain_store_states_example :
   [RData [7; 7]; RMissing; RMissing; RMissing; RMissing; RMissing; RMissing; RMissing; RData [4; 5; 6; 7]].
 Proof. vm_compute. reflexivity. Qed.
 
-(* the boundary of the statement (reported as a finding): a *regular* tile replaced by a single colour link is
-   missing in the crash state between unlink and symlink *)
-Lemma regular_replaced_by_link_missing_witness :
-  exists s r s', req_ok s r /\ In s' (crash_states s (file_store_ops s r)) /\
-                 is_link s (rq_loc r) = false /\ read_path s (rq_loc r) = RData [1; 2; 3] /\
-                 read_path s' (rq_loc r) = RMissing.
-Proof.
-  exists ex_fs, ex_req_link, (upd ex_fs ex_p None).
-  split; [apply req_ok_link_example|]. split.
-  - vm_compute. right. left. reflexivity.
-  - split; [reflexivity|]. split; vm_compute; reflexivity.
-Qed.
+(* the formerly failing input (a regular tile replaced by a single colour link): symlink under the temp name,
+   rename; the address reads old, old, new - never missing *)
+Example regular_replaced_by_link_states_example :
+  file_store_ops ex_fs ex_req_link = [OSymlink ex_sc (tmp_of ex_p [53]); ORename (tmp_of ex_p [53]) ex_p] /\
+  map (fun s' => read_path s' ex_p) (crash_states ex_fs (file_store_ops ex_fs ex_req_link)) =
+  [RData [1; 2; 3]; RData [1; 2; 3]; RData [7; 7]].
+Proof. vm_compute. split; reflexivity. Qed.
 
 (* ================================================================================================ *)
 (* PART 2: compact bundles (Crash.v part 2)                                                         *)
